@@ -2308,4 +2308,48 @@ theorem ievalZip_env_irrel (root : Val) : ∀ (n : List INode) (cur : Val) (env 
     simp only [ievalZip, e0, e1]
 end
 
+/-! ## Examples (non-vacuity) -/
+
+namespace Invar.Examples
+open Invar
+
+/-- `{"a": [1, null]}` -/
+def exDoc : Val := .obj [([0x61], .arr .plain [.num (.jnum [0x31]), .null])]
+/-- `a[*]` -/
+def exNode : INode := .projectArray (.field [0x61]) .current
+
+example : exDoc.Plain = true ∧ exDoc.NoEnum = true := by decide
+example : (Val.arr .nil []).Plain = false ∧ (Val.arr .nil []).NoEnum = true := by decide
+example : (Val.arr .enum []).Plain = true ∧ (Val.arr .enum []).NoEnum = false := by decide
+example : (Val.foreign 7).Plain = false ∧ (Val.foreign 7).NoEnum = true := by decide
+example : Val.Marshalable exDoc = true ∧ Val.Marshalable (.num (.f64 default)) = false := by decide
+example : exNode.RootFree = true ∧ exNode.VarFree = true ∧ exNode.EnumFree = true ∧ exNode.PlainLits = true := by decide
+example : (INode.pipe exNode .root).RootFree = false := by decide
+example : (INode.pipe exNode (.variable [0x78])).VarFree = false := by decide
+example : (INode.call .keys [.current]).EnumFree = false := by decide
+example : (INode.lit (.arr .nil [])).PlainLits = false := by decide
+/-- `Sat`: a definite outcome in strict mode; two categories or `nondet` are not -/
+example : Res.Sat true (fun v : Val => v.Good true = true) (.ok exDoc) := by show exDoc.Good true = true; decide
+example : ¬ Res.Sat true (fun _ : Val => True) (.err [Cat.invalidType, Cat.invalidValue]) := by simp [Res.Sat]
+example : ¬ Res.Sat true (fun _ : Val => True) .nondet := by simp [Res.Sat]
+example : Res.Sat false (fun _ : Val => True) .nondet := rfl
+/-- the main theorem in both modes on a concrete evaluation -/
+example : GoodR false (ieval exDoc exNode exDoc []) := ieval_sat (by decide) _ _ _ (by decide) (by decide) rfl
+example : GoodR true (ieval exDoc exNode exDoc []) := ieval_sat (by decide) _ _ _ (by decide) (by decide) rfl
+example : ieval exDoc exNode exDoc [] = .ok (.arr .plain [.num (.jnum [0x31])]) := rfl
+/-- per-helper: indexing a map-ordered array of two elements is `nondet`, which strict mode excludes via the tag -/
+example : index (.arr .enum [.null, .null]) 0 = .nondet := rfl
+example : GoodR false (index (.arr .enum [.null, .null]) 0) := index_sat 0 (by decide)
+example : enum2 .plain [.null, .null] = false := enum2_of_tagOk _ rfl
+example : widen .plain [.null, .null] [fun _ => errType] [] (errValue : Res Val) = errValue :=
+  widen_of_not_enum2 _ rfl
+/-- root- and environment-independence -/
+example : ieval .null exNode exDoc [] = ieval exDoc exNode exDoc [] := ieval_root_irrel _ _ _ _ _ (by decide)
+example : ieval exDoc exNode exDoc [([0x78], .null)] = ieval exDoc exNode exDoc [] :=
+  ieval_env_irrel _ _ _ _ _ (by decide)
+example : exNode.all (fun m => INode.notRoot m && INode.notVar m) = true := by
+  rw [INode.all_and]; decide
+
+end Invar.Examples
+
 end Jmes
